@@ -354,6 +354,7 @@ fn exp_file_entries(m: &Model) -> Exp {
             "user": s(&users[i]),
             "group": s(&groups[i]),
             "mode": modes[i],
+            "kind": match modes[i] & 0o170000 { 0o040000 => "dir", 0o100000 => "regular", 0o120000 => "symlink", _ => "other" },
             "mtime": mtimes[i],
             "size": sizes[i],
             "flags": flags[i],
@@ -460,6 +461,7 @@ fn accessor_table(m: &PackageMetadata, model: &Model) -> Vec<(&'static str, Exp,
                                 "user": e.ownership.user,
                                 "group": e.ownership.group,
                                 "mode": e.mode.raw_mode(),
+                                "kind": match e.mode { rpm::FileMode::Dir { .. } => "dir", rpm::FileMode::Regular { .. } => "regular", rpm::FileMode::SymbolicLink { .. } => "symlink", _ => "other" },
                                 "mtime": e.modified_at.0,
                                 "size": e.size as u64,
                                 "flags": e.flags.bits(),
@@ -632,7 +634,7 @@ fn strs_n(r: &mut Rng, n: usize) -> Val {
 /// right-typed value for a tag with about `n` items
 fn right(r: &mut Rng, typ: u32, n: usize) -> Val {
     match typ {
-        3 => Val::Int16((0..n).map(|_| [0o100644u16, 0o040755, 0o120777, 0o010644, r.next() as u16][r.usize(5)]).collect()),
+        3 => Val::Int16((0..n).map(|_| [0o100644u16, 0o040755, 0o120777, 0o010644, 0o060660, 0o140755, 0o020620, r.next() as u16][r.usize(8)]).collect()),
         4 => Val::Int32((0..n).map(|_| [0u32, 1, 8, r.next() as u32][r.usize(4)]).collect()),
         5 => Val::Int64((0..n).map(|_| [0u64, 1, 1 << 33, r.next()][r.usize(4)]).collect()),
         6 => Val::Str(rstr(r)),
